@@ -14,7 +14,7 @@ from common import rng_for, run_model, coq_eval, w_list, frac
 from draws import Draws
 
 RULE = ("reference continua from VERIF_SEED (2..5 annotators, 1..6 units, all patterns, empty annotators allowed) x ground-truth subsets (>= 2) x "
-        "both pivot types x 3 samples each (record mode), the integer-truncation witness (script mode), and 200 direct comparisons of "
+        "both pivot types x 3 recorded + 2 steered samples each (timelines below zero included; the whole stream also goes through the model's retry loop), the integer-truncation witness (script mode), and 200 direct comparisons of "
         "_remove_pivot_segment; non-trivial = >= 3 sampled annotators (several exclusion zones) or a wrapped unit; distinct by (reference, ground truth, "
         "pivot type, recorded draws)")
 TRUSTED_BASE = ["Coq 8.16.1 kernel", "extraction (ExtrOcamlBasic only), ocaml/driver.ml", "harness/{common,gen,draws,c16}.py: wrappers around np.random.*",
@@ -130,9 +130,12 @@ def check_sample(rep, pa, desc, cont, gts, pivot_type, sample, log, labels_id):
     # the calls of the last pass only (3 per annotator drawn from segments, 2 when no segment was left)
     st_last, recs_last = stream_from_log(log[len(log) - sum(3 if r["segments"] else 2 for r in last):], gts)
     gt_units = [[(u.segment.start, u.segment.end, labels_id(u.annotation)) for u in cont[a]] for a in gts]
-    line = [600, 1, 1 if pivot_type == "int_pivot" else 0] + q(dist) + q(binf) + q(bsup) + \
-        w_list(gt_units, lambda us: w_list(us, lambda u: q(u[0]) + q(u[1]) + [u[2]])) + [n_gt] + w_list(st_last, lambda d: d)
-    return bad, (line, recs_last, gt_units, dist, binf, bsup)
+    head = [1, 1 if pivot_type == "int_pivot" else 0] + q(dist) + q(binf) + q(bsup) + \
+        w_list(gt_units, lambda us: w_list(us, lambda u: q(u[0]) + q(u[1]) + [u[2]]))
+    line = [600] + head + [n_gt] + w_list(st_last, lambda d: d)
+    # the whole recorded stream through the model's retry loop: exactly the passes before the last one must have come out empty
+    retry_line = [602] + head + [npass + 1] + w_list(st, lambda d: d)
+    return bad, (line, recs_last, gt_units, dist, binf, bsup, retry_line, npass, len(st_last))
 
 
 def compare_with_model(rep, desc, pivot_type, sample, out, recs, gt_units, dist, binf, bsup, gts, labels_id):
@@ -201,6 +204,7 @@ def run(rep, tier, seed, pa):
     rng = rng_for(seed, "C16")
     nref = 40 if tier == "quick" else 400
     lines, metas = [], []
+    retry_lines, retry_meta = [], []
     label_ids = {}
     shared = {}
 
@@ -255,7 +259,9 @@ def run(rep, tier, seed, pa):
                     rep.violation(key, desc, what)
                 if pack is not None:
                     lines.append(pack[0])
-                    metas.append((desc, pivot_type, sample, pack[1:], list(gts)))
+                    metas.append((desc, pivot_type, sample, pack[1:6], list(gts)))
+                    retry_lines.append(pack[6])
+                    retry_meta.append((desc, pack[7], pack[8]))
     outs = run_model(lines)
     for (desc, pivot_type, sample, (recs, gt_units, dist, binf, bsup), gts), out in zip(metas, outs):
         rep.count("pivot_type=" + pivot_type)
@@ -269,6 +275,12 @@ def run(rep, tier, seed, pa):
                  nontrivial_key=repr(desc) if len(gts) >= 3 else None)
         for key, what in bad:
             rep.violation(key, desc, what)
+    # the retry loop: number of discarded passes and the point of the stream where the kept pass starts
+    for (desc, npass, nlast), out in zip(retry_meta, run_model(retry_lines)):
+        rep.count("passes=%d" % npass)
+        if out != [1, npass - 1, nlast]:
+            rep.violation("retry-loop", dict(desc, passes=npass, model=out),
+                          "the library made %d passes; the model's retry loop says %r (1, discarded passes, draws of the kept pass = %d)" % (npass, out, nlast))
     # _remove_pivot_segment alone against the model
     from pyannote.core import Segment
     rlines, rmeta = [], []
@@ -354,7 +366,7 @@ def replay(rep, data, pa):
     if pack is None:
         return False
     out = run_model([pack[0]])[0]
-    bad2, _ = compare_with_model(rep, data, data["pivot_type"], sample, out, *pack[1:], list(data["ground_truth"]), lambda l: ids.setdefault(l, len(ids)))
+    bad2, _ = compare_with_model(rep, data, data["pivot_type"], sample, out, *pack[1:6], list(data["ground_truth"]), lambda l: ids.setdefault(l, len(ids)))
     for k, w in bad + bad2:
         print("  ", k, w)
     return not (bad or bad2)
